@@ -1,1 +1,44 @@
-(* property theorems: see below; filled in when the proofs are complete *)
+(* C02 - TFTP transfers are lock-step, retransmit boundedly on time-out only, always end.
+   Property theorems only. *)
+From Coq Require Import String.
+From Coq Require Import List NArith ZArith Bool Arith Lia.
+From VF Require Import Tftp.Readers Tftp.Codec Tftp.Transfer Tftp.Run Tftp.Monitor Tftp.MonitorProofs
+  Tftp.Entries Tftp.TimeProofs C02.Entry C01.Props.
+Import ListNotations.
+
+(* For every script the trace is accepted by the monitor.  The monitor admits a new DATA/OACK
+   packet only directly after the receipt of the matching ACK from the client (lock-step), a
+   repeated packet only directly after a time-out that fires exactly one interval after the
+   previous send of that packet (never after duplicate, stale, future, foreign or malformed
+   datagrams, which leave the deadline where it was), at most 1 + max_retries sends of one
+   packet, nothing after giving up or after a peer ERROR, and the release of file and socket
+   as the last two events. *)
+Theorem C02_monitor_accepts : forall c, valid c -> monitor c (run_transfer_case c) = [].
+Proof. exact monitor_accepts. Qed.
+Print Assumptions C02_monitor_accepts.
+
+(* every time stamp of the transfer lies within packets x (1 + max_retries) x timeout *)
+Theorem C02_terminates_in_time : forall c, valid c -> within_time c (run_transfer_case c) = true.
+Proof. exact TimeProofs.transfer_within_time. Qed.
+Print Assumptions C02_terminates_in_time.
+
+Theorem C02_holds : forall c, valid c -> holds c (run_transfer_case c) = [].
+Proof.
+  intros c H. unfold holds. rewrite monitor_accepts by exact H.
+  rewrite TimeProofs.transfer_within_time by exact H. reflexivity.
+Qed.
+Print Assumptions C02_holds.
+
+(* the behaviour before the repair of D1 (retry exhaustion fell through) violates the property:
+   a silent client is sent the next packet without having acknowledged anything *)
+Definition d1_case : tcase :=
+  {| t_content := [1; 2; 3]%N; t_chunks := []; t_netascii := false; t_options := [(lit "blksize", lit "8")];
+     t_limits := {| max_bs := 65464; max_tmo := 30; default_tmo := 2 |}; t_retries := 1; t_wrap := Some 0%N;
+     t_kind := KNoFileno; t_events := [];
+     t_v := {| retry_fallthrough := true; errcode_raises := false |}; t_nv := ncurrent; t_na_always_skip := false |}.
+Theorem C02_refuted_D1_retry_fallthrough : holds d1_case (run_transfer_case d1_case) <> [].
+Proof. vm_compute. discriminate. Qed.
+
+Example C02_nonvacuous :
+  valid (C01.Props.ex_case) /\ List.length (run_transfer_case C01.Props.ex_case) = 13%nat.
+Proof. split; [repeat split; cbn; lia|vm_compute; reflexivity]. Qed.
